@@ -10,8 +10,8 @@ MANIFEST = {
     "technique": "Coq proof over a hand-written Gallina model of the box codec (header, container recursion, prefixed containers "
                  "stsd/dref/sample entries/ISO meta/wvtt, the look-ahead of DecodeMetaSR, unknown boxes, 69 leaf table entries incl. the esds "
                  "descriptor tree, the uuid variants, sgpd with its entries, iTunes data, the WebVTT boxes; the box loop of a file AND the "
-                 "File-level acceptance rules of DecodeFileSR) + differential correspondence (extracted OCaml vs Go, single boxes and whole "
-                 "files) + failing-input search on all registered box types and on whole files, whose mutant failures are labelled by the "
+                 "File-level acceptance rules of DecodeFileSR) + differential correspondence (extracted OCaml vs Go: single boxes, the second generation "
+                 "of not-reproduced boxes with the theorem hypothesis evaluated per case, whole files) + failing-input search on all registered box types and on whole files, whose mutant failures are labelled by the "
                  "model's proved-complete reasons",
     "level_text": "PROOF for the modelled universe (coq/c01/C01Theorems.v): header round trip both ways; for each of the leaf "
                   "kinds ftyp styp free skip mdat mfhd tfhd tfdt trun mvhd tkhd sidx trex mdhd hdlr stts stsc stsz stco co64 stss sdtp "
@@ -29,6 +29,13 @@ MANIFEST = {
                   "capacities and the 2^32 limit, Box.EncodeSW) with the same bytes enc of the input's length = Size(), enc decodes "
                   "again to norm_box t (= t up to the captured reserved bytes) and encodes to enc again on both paths (for meta: the "
                   "re-encoding keeps the eight header bytes of the first child that the look-ahead reads, reenc_hdr); "
+                  "SECOND GENERATION of inputs that are NOT reproduced (C01_fixpoint, second conjunct = generation2, no exactness hypothesis on the first tree: trailing "
+                  "bytes dropped, header size ignored, large-size header compacted, trak re-ordered, guarded shapes): whenever the bytes enc that "
+                  "Box.Encode wrote satisfy the boolean gen2_ok (a byte string the decoder model accepts completely with no reason of why_box), "
+                  "enc is a fixed point on every API path (second decode exact and its own normal form, raw encoder = Box.Encode = Box.EncodeSW = "
+                  "enc, Size() = its length); gen2_ok is EVALUATED by the driver on the encoders' real output for every not-reproduced accepted "
+                  "box of the correspondence run and the conclusion is checked on the implementation's answers (evidence: "
+                  "correspondence.second_generation, theorem_hypotheses_evaluated); that gen2_ok holds for EVERY accepted input is explored, not proved; "
                   "FILE LEVEL: decode_file_sr models the loop of DecodeFileSR with the rules that are not box-local (moov needs the "
                   "first-trak/mdia/minf/stbl/stts chain; mdat placement for fragmented and progressive files; traf with unparsed senc "
                   "needs a tfhd when a moov is there; isFragmented; a cut-short mdat ends the loop; trailing bytes / size-0 headers refused); "
@@ -138,7 +145,33 @@ def run_corr(ctx, exe, model, harness_args, what):
         p = l.split(" ")
         if p[0] == "OK" and len(p) > 2:
             cls[p[2]] = cls.get(p[2], 0) + 1
-    distinct = len(set(l.split("\t", 2)[2] for l in lines if l.count("\t") >= 2))
+    # accepted inputs whose second generation is NOT a fixed point on the implementation (the model agrees, or there would be a
+    # mismatch): failing inputs of the property's last sentence; site = the deepest box whose own re-encoding is not a fixed point
+    by_in = {}
+    for l in lines:
+        p = l.split("\t")
+        if len(p) > 2 and p[0] in ("G", "H"):
+            by_in[p[1]] = p
+    notfixed = 0
+    for l in res:
+        p = l.split(" ")
+        if p[0] == "OK" and len(p) >= 5 and p[3] == "NOTFIXED":
+            notfixed += 1
+            c = by_in.get(p[1])
+            site = bytes.fromhex(p[4]).decode("latin1")
+            ctx.failing_input(site, "second-generation-not-a-fixed-point", c[2] if c else p[1],
+                              "accepted, re-encoded to different bytes, and those bytes are NOT a fixed point: decoding the encoders' "
+                              "output again and encoding once more gives other bytes (model and implementation agree; class %s); "
+                              "second generation on the implementation: %s" % (p[2], (c[3] if c else "")[:300]))
+    # second generation (G lines): accepted inputs that Box.Encode did not reproduce; the driver compares what the real code does
+    # with its own output against the model and evaluates the hypothesis gen2_ok of C01_fixpoint (second conjunct) on those bytes
+    g2f = {k[9:]: v for k, v in cls.items() if k.startswith("gen2file-")}
+    g2fn = sum(g2f.values())
+    g2ffix = sum(v for k, v in g2f.items() if k.endswith("-fix"))
+    g2 = {k[5:]: v for k, v in cls.items() if k.startswith("gen2-")}
+    g2n = sum(g2.values())
+    g2fix = sum(v for k, v in g2.items() if k.endswith("-fix"))
+    distinct = len(set(l.split("\t", 2)[2] for l in lines if l.count("\t") >= 2 and l[:2] not in ("G\t", "H\t")))
     ctx.cov["evaluations"] += len(lines)
     ctx.cov["distinct_nontrivial"] += distinct
     stats = [l for l in e.splitlines() if l.startswith("STATS")]
@@ -148,13 +181,29 @@ def run_corr(ctx, exe, model, harness_args, what):
         "whole_files": {"cases": sum(1 for l in lines if l.startswith("F\t")), "accepted_exact": cls.get("file-exact", 0),
                         "accepted_inexact": cls.get("file-inexact", 0), "rejected_by_both": cls.get("file-rej", 0),
                         "outside_model_reaches_ParseReadSenc": cls.get("outside", 0)},
+        "second_generation": {
+            "what": "accepted inputs whose Box.Encode output differs from the input: DecodeBoxSR + Size + Encode + EncodeSW applied to "
+                    "that OUTPUT on the real code vs the model applied to the model's output; gen2_ok (hypothesis of C01_fixpoint (second conjunct)) "
+                    "evaluated on it, the theorem's conclusion checked on the implementation's answer",
+            "cases": g2n, "hypothesis_gen2_ok_holds": g2fix, "by_first_generation_and_class": g2,
+            "first_generation_inexact": sum(v for k, v in g2.items() if k.startswith("inexact-")),
+            "first_generation_exact_reserved_bytes_rewritten_or_bytes_left": sum(v for k, v in g2.items() if k.startswith("exact-")),
+            "not_a_fixed_point_on_the_implementation": notfixed,
+            "whole_files": {"cases": g2fn, "hypothesis_gen2_file_ok_holds": g2ffix, "by_first_generation_and_class": g2f},
+        },
         "harness_stats": stats[0] if stats else "",
+    }
+    ctx.notes["theorem_hypotheses_evaluated"] = {
+        "C01_tree/C01_fixpoint (exact_box of the decoded tree)": "%d of %d accepted single boxes, %d of %d accepted files" % (
+            cls["exact"], cls["exact"] + cls["inexact"], cls.get("file-exact", 0), cls.get("file-exact", 0) + cls.get("file-inexact", 0)),
+        "C01_fixpoint, 2nd conjunct (gen2_ok of the encoders' output)": "%d of %d not-reproduced accepted boxes" % (g2fix, g2n),
+        "C01_file_boxtree, 3rd conjunct (gen2_file_ok of File.Encode's output)": "%d of %d not-reproduced accepted files" % (g2ffix, g2fn),
     }
     ctx.cov["samples"] += [l[:300] for l in lines[10:12]] + [l[:300] for l in lines[-2:]]
     ctx.log("correspondence: %d cases (%d distinct), %d mismatches; model says exact=%d inexact=%d rejected=%d; whole files: "
-            "exact=%d inexact=%d rejected=%d outside=%d" % (
+            "exact=%d inexact=%d rejected=%d outside=%d; second generation of %d not-reproduced boxes: gen2_ok holds for %d, of %d files: %d" % (
         len(lines), distinct, len(mism), cls["exact"], cls["inexact"], cls["rej"], cls.get("file-exact", 0),
-        cls.get("file-inexact", 0), cls.get("file-rej", 0), cls.get("outside", 0)))
+        cls.get("file-inexact", 0), cls.get("file-rej", 0), cls.get("outside", 0), g2n, g2fix, g2fn, g2ffix))
     return lines, mism
 
 
